@@ -1500,11 +1500,11 @@ Proof. reflexivity. Qed.
 (* C11 on an association whose FIRST ClientHello was rewritten on path (supported_groups, ALPN offer,
    extended_master_secret, server_name): if it completes, it completes exactly as the untouched association *)
 Theorem first_hello_steering_harmless ck sk seeded t o :
-  t_sh_alpn t = 0 ->
+  t_sh_alpn t = 0 -> t_sh_suite t = 0 ->
   negotiate12_steered ck sk seeded true t = Ok o ->
   negotiate12_steered ck sk seeded true no_steering = Ok o.
 Proof.
-  intros Ht. unfold negotiate12_steered. cbv zeta.
+  intros Ht Hts. unfold negotiate12_steered. cbv zeta. rewrite Hts.
   destruct (nonempty (filter_for_version v12 (filter_for_key (c_key (k_cfg sk)) (k_suites sk)))); cbn [negb]; [|discriminate].
   set (h2 := client_hello12 ck (seeded && c_store (k_cfg ck) && true)).
   intro H. apply lift_ok in H. destruct H as [f0 [Hf H]].
@@ -1608,4 +1608,46 @@ Proof.
   exists w_ems_c, w_ems_s.
   destruct (negotiate w_ems_c w_ems_s true) as [[o| |]|] eqn:E; try (vm_compute in E; discriminate).
   exists o. split; [reflexivity|]. vm_compute in E. inversion E; subst o. repeat split.
+Qed.
+
+(* ------------------------------------------------------------------ the ServerHello message hook *)
+
+(* "fix: the server's view follows the ServerHello that leaves after the hook": a hook cannot make the two sides
+   complete on a cipher suite other than the one the server chose ... *)
+Theorem hook_cannot_change_the_suite ck sk seeded hv t o :
+  negotiate12_steered ck sk seeded hv t = Ok o -> t_sh_suite t = 0 \/ t_sh_suite t = o_suite o.
+Proof.
+  unfold negotiate12_steered. cbv zeta.
+  destruct (nonempty (filter_for_version v12 (filter_for_key (c_key (k_cfg sk)) (k_suites sk)))); cbn [negb]; [|discriminate].
+  intro H. apply lift_ok in H. destruct H as [f0 [Hf H]].
+  apply lift_ok in H. destruct H as [u1 [_ H]].
+  apply lift_ok in H. destruct H as [u2 [Hs H]]. apply req_ok in Hs.
+  apply lift_ok in H. destruct H as [cv [_ H]].
+  destruct (nonempty (filter_for_version v12 (k_suites ck))); cbn [negb] in H; [|discriminate].
+  apply lift_ok in H. destruct H as [o1 [Ho1 H]].
+  apply lift_ok in H. destruct H as [o2 [Ho2 H]]. inversion H; subst o2; clear H.
+  apply server_finish_ok in Ho2. subst o1. apply client12_spec in Ho1.
+  destruct (cl_suite _ _ _ _ _ _ _ Ho1) as [Q1 _].
+  apply orb_true_iff in Hs. destruct Hs as [Hs|Hs]; apply N.eqb_eq in Hs; [now left | right].
+  rewrite Q1, Hs. unfold steer_flight. now destruct (t_sh_alpn t =? 0).
+Qed.
+
+(* ... and the protocol the association reports is the one the FINAL ServerHello names, held to the client's list *)
+Theorem hook_alpn_is_the_final_server_hello ck sk seeded hv t o :
+  negotiate12_steered ck sk seeded hv t = Ok o -> t_sh_alpn t <> 0 ->
+  o_alpn o = t_sh_alpn t /\ In (o_alpn o) (c_alpn (k_cfg ck)).
+Proof.
+  unfold negotiate12_steered. cbv zeta.
+  destruct (nonempty (filter_for_version v12 (filter_for_key (c_key (k_cfg sk)) (k_suites sk)))); cbn [negb]; [|discriminate].
+  intros H Hn. apply lift_ok in H. destruct H as [f0 [Hf H]].
+  apply lift_ok in H. destruct H as [u1 [_ H]].
+  apply lift_ok in H. destruct H as [u2 [_ H]].
+  apply lift_ok in H. destruct H as [cv [_ H]].
+  destruct (nonempty (filter_for_version v12 (k_suites ck))); cbn [negb] in H; [|discriminate].
+  apply lift_ok in H. destruct H as [o1 [Ho1 H]].
+  apply lift_ok in H. destruct H as [o2 [Ho2 H]]. inversion H; subst o2; clear H.
+  apply server_finish_ok in Ho2. subst o1. apply client12_spec in Ho1.
+  assert (Ha : o_alpn o = t_sh_alpn t).
+  { rewrite (cl_alpn _ _ _ _ _ _ _ Ho1). unfold steer_flight. apply N.eqb_neq in Hn. now rewrite Hn. }
+  split; [exact Ha|]. apply (cl_alpn_own _ _ _ _ _ _ _ Ho1). now rewrite Ha.
 Qed.
